@@ -42,6 +42,7 @@ pub fn generator(prop: &str) -> Option<Gen> {
         "C10" => Some(gen::gen_c10),
         "C11" => Some(gen::gen_c11),
         "C14" => Some(gen::gen_c14),
+        "C20" => Some(gen::gen_c20),
         _ => None,
     }
 }
